@@ -287,7 +287,7 @@ extend("C19", "A-TOTAL direct-call classes", "pkg/types decoders also return for
 extend("C10", "", "reference chains (a definition that is only a $ref): five known findings.")
 extend("C09", "", "defaults inside allOf / anyOf branches; a defaulted property's named field type lets the token null through (known finding: defaulted enums refuse null).")
 extend("C18", "B-EOF", "every successful return after json.Decoder.Decode is dominated by an end-of-input test on the decoder (fixed bcc2aff: trailing data accepted).")
-for _pid in ("C02", "C03", "C04", "C05", "C06", "C07", "C08", "C09", "C10", "C11", "C14", "C15", "C17", "C18", "C19"):
+for _pid in ("C02", "C03", "C04", "C05", "C06", "C07", "C08", "C09", "C10", "C11", "C14", "C15", "C18", "C19"):
     extend(_pid, "", "one family member in four (all in the thorough tier) is also run without --extra-imports, the CLI's default mode.")
 # ---- round 7 additions
 extend("C13", "", "A-LEGACY other-field clause: the two spellings never leave different models in a field that is not the keyword's own.")
